@@ -80,6 +80,7 @@ class _CallCap(Exception):
 
 
 KINDS = ['returned', 'IndexError', 'stream-exhausted', 'call-cap', 'other-exception']
+TOKEN_X0, TOKEN_SCALE = 24.0, 256.0   # scripted runs: geometry.x0 = 24 + (call number)/256 (script image centre: 24)
 SMA_CAP = 1.0e4         # a run whose sma passes this is cut as well (sampling there takes forever)
 CALL_CAP = 250          # fit_isophote calls per fit_image run; the model's fuel is 400 per loop
 
@@ -112,6 +113,10 @@ def run_fit_image(image, geom_args, kwargs, script=None, minit=10, record_steps=
                 if not pending:
                     raise _Starved()
                 code, valid = pending.pop(0)
+                # the scripted "fit" stamps the geometry with the number of this fit_isophote call (an exact
+                # dyadic shift of x0), so that the provenance of every returned geometry is observable:
+                # non-iterative / central / repaired isophotes must carry a COPY of the right isophote's geometry
+                self._sample.geometry.x0 = TOKEN_X0 + len(calls) / TOKEN_SCALE
                 self._sample.update(self._sample.geometry.fix)
                 iso = Isophote(self._sample, 1, valid, code)
             else:
@@ -177,13 +182,20 @@ def run_fit_image(image, geom_args, kwargs, script=None, minit=10, record_steps=
         fit.fit_first_and_second_harmonics = rec_harm
         fit._CORRECTORS[:] = [RecCorr(k, c) for k, c in enumerate(real_corr)]
         fit.EllipseFitter._check_conditions = staticmethod(rec_check)
-    kind, isos, isolist, exc = 0, [], None, None
+    kind, isos, isolist, exc, geoms = 0, [], None, None, []
     try:
         with warnings.catch_warnings():
             warnings.simplefilter('ignore')
             with np.errstate(all='ignore'):
                 isolist = RecEllipse(image, geometry).fit_image(minit=minit, **kwargs)
         isos = [(float(i.sma), int(i.stop_code), bool(i.valid)) for i in isolist]
+        if pending is not None:
+            geoms = [(float(i.sample.geometry.x0) - TOKEN_X0) * TOKEN_SCALE for i in isolist]
+            if any(g != int(g) for g in geoms):
+                raise RuntimeError(f'geometry token not recovered exactly: {geoms}')
+            geoms = [int(g) for g in geoms]
+        else:
+            geoms = [-1] * len(isos)                 # real fitter: provenance checked by copied_geometry_oracle
         # ... and the flags every returned isophote carries (non-iterative ones never see a fitter)
         fixflags += [('isophote', float(i.sma), tuple(bool(v) for v in i.sample.geometry.fix))
                      for i in isolist if i.sma > 0]
@@ -205,7 +217,7 @@ def run_fit_image(image, geom_args, kwargs, script=None, minit=10, record_steps=
     steps = [s for s in steps if 'gn' in s]        # a step whose update() raised has no 'gn'
     for s in steps:
         s.pop('new')
-    return dict(kind=kind, isos=isos, calls=calls, stream=stream, steps=steps, exc=exc, fixflags=fixflags,
+    return dict(kind=kind, isos=isos, geoms=geoms, calls=calls, stream=stream, steps=steps, exc=exc, fixflags=fixflags,
                 isolist=isolist, untouched=bool(np.array_equal(image, img0)), geometry=geometry)
 
 
@@ -318,7 +330,7 @@ def run_sched(p):
 
 
 def sched_term(p, obs, stream, repaired=True):
-    res = (obs['kind'], [(fl(s), c, v) for (s, c, v) in obs['isos']])
+    res = (obs['kind'], [(fl(s), c, v, g) for (s, c, v), g in zip(obs['isos'], obs['geoms'])])
     calls = [(fl(s), ni, inw, first) for (s, ni, inw, first) in obs['calls']]
     return ('CSched ' + ' '.join(coq(v) for v in [
         repaired, p['lin'], fl(p['step']), fl(p['minsma']), ofl(p['maxsma']), ofl(p['maxrit']),
@@ -374,6 +386,8 @@ def describe_sched(p):
 # --------------------------------------------------------------------------
 def gen_real(rng, thorough=False, force=None):
     """One real fit.  `force` selects a structured family that must occur in every run:
+    'maxrit' / 'offframe' (nothing fixed, first guess away from the truth, outward pass ending non-iteratively
+    beyond maxrit / beyond the frame: stop-code-4 isophotes inside the model-image region),
     'pa0' (true PA exactly 0 or pi: the fitted PAs straddle the seam, for the model image),
     'wide' / 'tall' (frame aspect 1:2-1:3 with the galaxy centre beyond the shorter dimension along the
     long axis, nothing fixed, bilinear: for the model image), 'fix-offframe' / 'fix-maxrit' / 'fix-none'
@@ -412,14 +426,17 @@ def gen_real(rng, thorough=False, force=None):
     minsma = rng.choice([0.0, 0.0, 2.0, 3.0, sma0 - 0.3, sma0 * 0.93])
     if force == 'pa0':
         pa = rng.choice([0.0, math.pi])             # major axis along the image x axis: fitted PAs straddle the 0/pi seam
-    if force in ('wide', 'tall', 'pa0'):
+    if force in ('maxrit', 'offframe'):
+        scale = rng.uniform(size / 6, size / 5)     # the comparable region reaches beyond maxrit
+    if force in ('wide', 'tall', 'pa0', 'maxrit', 'offframe'):
         lin, step, minsma = False, 0.1, 0.0         # a long list, so that the model image has a region to test
     # outward pass: unbounded (ends on failures), bounded inside the frame, bounded BEYOND the frame (fits
     # fail on off-frame ellipses, the tail is extracted non-iteratively), or non-iterative beyond maxrit
     maxrit = None
     out = rng.choice(['none', 'in', 'in', 'in', 'off', 'maxrit'])
     out = {'fix-offframe': 'off', 'fix-maxrit': 'maxrit', 'fix-none': 'none', 'wide': 'in', 'tall': 'in',
-           'chan-ctor': 'in', 'chan-attr': 'off', 'chan-disagree': 'in', 'pa0': 'in'}.get(force, out)
+           'chan-ctor': 'in', 'chan-attr': 'off', 'chan-disagree': 'in', 'pa0': 'in', 'maxrit': 'maxrit',
+           'offframe': 'off'}.get(force, out)
     if out == 'none':
         maxsma = None
     elif out == 'in':
@@ -431,7 +448,7 @@ def gen_real(rng, thorough=False, force=None):
     fixes = rng.choice([(False, False, False)] * 4 + [(True, False, False), (False, True, False),
                                                       (False, False, True), (True, True, False),
                                                       (False, True, True), (True, False, True)])
-    if force in ('wide', 'tall', 'pa0'):
+    if force in ('wide', 'tall', 'pa0', 'maxrit', 'offframe'):
         fixes = (False, False, False)
     elif force is not None:
         fixes = rng.choice([(True, False, False), (False, True, False), (False, False, True),
@@ -448,12 +465,17 @@ def gen_real(rng, thorough=False, force=None):
 
     def away(lo, hi):
         return rng.choice([-1, 1]) * rng.uniform(lo, hi)
+    far = force in ('maxrit', 'offframe')           # a first guess visibly different from the truth
     if fixes[0]:
         gx, gy = (x0 + away(0.4 * dmax, dmax), y0 + away(0.4 * dmax, dmax)) if off else (x0, y0)
+    elif far:
+        gx, gy = x0 + away(0.4 * dmax, dmax), y0 + away(0.4 * dmax, dmax)
     else:
         gx, gy = x0 + rng.uniform(-dmax, dmax), y0 + rng.uniform(-dmax, dmax)
     if fixes[1]:
         gpa = pa + away(0.4 * amax, amax) if off else pa
+    elif far:
+        gpa = pa + away(0.4 * amax, amax)
     else:
         gpa = pa + rng.uniform(-amax, amax)
     if fixes[2]:
@@ -518,7 +540,7 @@ def run_real(p, record_steps=True):
 
 
 # structured families generated in every run (see gen_real)
-FORCED_REAL = ['wide', 'tall', 'pa0', 'fix-offframe', 'fix-maxrit', 'fix-none', 'chan-ctor', 'chan-attr', 'chan-disagree']
+FORCED_REAL = ['wide', 'tall', 'pa0', 'maxrit', 'offframe', 'fix-offframe', 'fix-maxrit', 'fix-none', 'chan-ctor', 'chan-attr', 'chan-disagree']
 
 # inputs that once exposed a defect; run first in every tier
 PINNED_REAL = [
@@ -587,8 +609,10 @@ def model_residual(p, obs):
     slope = np.abs(np.log(f(rr * 1.01)) - np.log(f(rr))) / (0.01 * rr) / (1.0 - p['eps'])
     region &= slope <= 0.5
     # ... and only pixels that no ellipse drawn from a NON-CONVERGED isophote can touch.  The fitter itself flags
-    # those (stop code 2: iteration limit, geometry = best so far; 5/4/1: geometry copied / not fitted / too few
-    # points); their geometry need not describe the image, so no model of the list can reproduce it there.  The
+    # those (stop code 2: iteration limit, geometry = best so far; 1: too few points; 5: failed, geometry copied;
+    # 4 only when the geometry it copies is itself not a converged one); their geometry need not describe the
+    # image, so no model of the list can reproduce it there.  Isophotes extracted non-iteratively (stop code 4)
+    # along a converged geometry are NOT left out: on an elliptical galaxy they must reproduce the image.  The
     # model between consecutive fitted sma is a cubic spline through the list, so a non-converged isophote j
     # influences the ellipses with sma in [sma_(j-2), sma_(j+2)], drawn with geometries between the true one and
     # that of j.  In terms of the TRUE elliptical radius r these ellipses cover the band from the smallest r on
@@ -598,11 +622,13 @@ def model_residual(p, obs):
     # convergence-rate and recovery tests, not of this one.
     il = list(obs['isolist'])
     n = len(il)
+    order = append_order(p, obs)
+    trusted = {id(i): t for i, t in zip(order, trusted_chain(order))}
     cpa, spa = math.cos(p['pa']), math.sin(p['pa'])
     phi = np.linspace(0.0, 2 * math.pi, 180, endpoint=False)
     unsupported = np.zeros(r.shape, bool)
     for j, iso in enumerate(il):
-        if iso.stop_code == 0 or iso.sma <= 0:
+        if iso.sma <= 0 or trusted.get(id(iso), False):
             continue
         lo_sma, hi_sma = il[max(0, j - 2)].sma, il[min(n - 1, j + 2)].sma
         band_lo, band_hi = lo_sma, hi_sma
@@ -630,7 +656,7 @@ def angdiff(a, b):
 
 def recovery(p, obs):
     """Support test of the (unprovable) recovery clause on WELL-SAMPLED isophotes: converged
-    (stop code 0), sma >= 5, semi-minor axis >= 3 pixels, logarithmic intensity slope along the
+    (stop code 0) or extracted non-iteratively (stop code 4) along the geometry of a converged one, sma >= 5, semi-minor axis >= 3 pixels, logarithmic intensity slope along the
     minor axis <= 0.5 per pixel (the image is the profile sampled at pixel centres: steeper
     profiles are not resolved by any interpolation), inside the frame and within 3.5 scale radii.
     Tolerance rule of the property: |fit - truth| <= max(small absolute tolerance, 5 x reported
@@ -645,6 +671,8 @@ def recovery(p, obs):
     edge = min(p['x0'], p['y0'], p['nx'] - 1 - p['x0'], p['ny'] - 1 - p['y0'])
     e0 = max(p['eps'], 0.05)
     worst['radii'] = 0
+    order = append_order(p, obs)
+    trusted = {id(i): t for i, t in zip(order, trusted_chain(order))}
     for iso in il:
         if iso.sma < 5 or iso.sma > 0.8 * edge or iso.sma > 3.5 * p['scale']:
             continue
@@ -652,9 +680,16 @@ def recovery(p, obs):
         slope = abs(math.log(float(f(iso.sma * 1.01))) - math.log(truth)) / (0.01 * iso.sma) / (1.0 - p['eps'])
         if iso.sma * (1.0 - p['eps']) < 3.0 or slope > 0.5:
             continue
-        worst['radii'] += 1
-        if iso.stop_code != 0:
-            continue
+        if iso.stop_code == 4:
+            # extracted non-iteratively along a copy of a converged geometry: must describe the galaxy as well
+            # (not a fit: it counts neither for nor against the convergence rate)
+            if not trusted.get(id(iso), False):
+                continue
+            worst['noniter'] = worst.get('noniter', 0) + 1
+        else:
+            worst['radii'] += 1
+            if iso.stop_code != 0:
+                continue
         n += 1
         dc = math.hypot(iso.x0 - p['x0'], iso.y0 - p['y0'])
         de = abs(iso.eps - p['eps'])
@@ -693,24 +728,50 @@ def fixed_honoured(p, obs):
     return bad
 
 
-def fixed_geometry_oracle(p, obs):
-    """_fix_last_isophote: an isophote whose fit failed (returned with stop code 5) carries the geometry
-    of the previous isophote when going outwards (index -1) and of the FIRST fitted isophote (sma0,
-    index 0) when going inwards.  Mechanism-level check on real fits (the scripted oracle never changes
-    the geometry, so the schedule model does not see it).  Returns a list of messages."""
-    il = list(obs['isolist'])
+def append_order(p, obs):
+    """The returned isophotes (sma > 0) in the order fit_image appended them: outward pass (sma >= sma0,
+    increasing), then inward pass (decreasing)."""
     a0 = p['sma0'] if p['sma0'] else p['gsma']
-    first = [i for i in il if i.sma == a0]
+    il = [i for i in obs['isolist'] if i.sma > 0]
+    return sorted([i for i in il if i.sma >= a0], key=lambda i: i.sma) + \
+        sorted([i for i in il if i.sma < a0], key=lambda i: -i.sma)
+
+
+def trusted_chain(order):
+    """ok[k]: the geometry of order[k] was produced by a CONVERGED fit: stop code 0, or stop code 4
+    (extracted non-iteratively along a copy of the previous isophote's geometry) after such an isophote."""
+    ok = []
+    for k, iso in enumerate(order):
+        ok.append(iso.stop_code == 0 or (iso.stop_code == 4 and k > 0 and ok[k - 1]))
+    return ok
+
+
+def fixed_geometry_oracle(p, obs):
+    """Provenance of copied geometries on real fits (the scripted runs check the same through the geometry
+    tokens and the Coq model):
+    * stop code 4 (ellipse.py:634-644: extracted non-iteratively) - the geometry of the most recent isophote of
+      the list at that call = the previous one in the pass (for the very first call: the caller's first guess);
+    * stop code 5 (_fix_last_isophote) - the previous isophote when going outwards (index -1), the FIRST
+      fitted isophote (sma0, index 0) when going inwards.
+    Returns a list of messages."""
+    order = append_order(p, obs)
+    a0 = p['sma0'] if p['sma0'] else p['gsma']
+    gx, gy, gpa, geps = p['g']
     bad = []
-    for k, iso in enumerate(il):
-        if iso.stop_code != 5 or iso.sma == a0 or not first:
+    for k, iso in enumerate(order):
+        if iso.stop_code == 4:
+            gr, what = ((order[k - 1].x0, order[k - 1].y0, order[k - 1].eps, order[k - 1].pa),
+                        f'the previous isophote of the pass (sma {order[k - 1].sma})') if k > 0 else \
+                       ((gx, gy, geps, gpa), 'the first guess')
+        elif iso.stop_code == 5 and k > 0 and order[0].sma == a0:
+            ref = order[k - 1] if iso.sma > a0 else order[0]
+            gr, what = (ref.x0, ref.y0, ref.eps, ref.pa), f'the isophote at sma {ref.sma}'
+        else:
             continue
-        ref = il[k - 1] if iso.sma > a0 else first[0]
         g = (iso.x0, iso.y0, iso.eps, iso.pa)
-        gr = (ref.x0, ref.y0, ref.eps, ref.pa)
         if g != gr:
-            bad.append(f'isophote at sma {iso.sma} (stop code 5) has geometry {g}, expected that of the isophote at '
-                       f'sma {ref.sma}: {gr}')
+            bad.append(f'isophote at sma {iso.sma} (stop code {iso.stop_code}) has geometry {g}, expected that of '
+                       f'{what}: {gr}')
     return bad
 
 
@@ -875,8 +936,11 @@ def run(ctx):
         '(keywords if any keyword is set - they replace the geometry flags -, else the geometry flags; scripted '
         'runs too; also evaluated by the Coq model, case CFix)',
         'sma_schedule: partial correctness (returns) and outcome-stream premise invalid => code 3',
-        '_fix_last_isophote geometry source (previous isophote outwards, first isophote inwards): tested on real '
-        'fits only',
+        'provenance of copied geometries (stop code 4: the previous isophote of the pass / the first guess; stop '
+        'code 5: previous isophote outwards, first isophote inwards; central isophote): part of the schedule model '
+        '(i_geom) and compared exactly on scripted runs through geometry tokens; on real fits by direct comparison; '
+        'non-iterative isophotes copied from a converged one are held to the recovery tolerances and stay inside '
+        'the model-image region',
     ]
     terms, meta = [], []
 
@@ -979,7 +1043,7 @@ def run(ctx):
         fg = fixed_geometry_oracle(p, obs)
         ctx.stat('real', 'stop-code-5-isophotes', sum(1 for _, c, _ in obs['isos'] if c == 5))
         if fg:
-            ctx.violation('correspondence:_fix_last_isophote.geometry', fg[0], describe_real(p), found_input=False)
+            ctx.violation('correspondence:copied-geometry', fg[0], describe_real(p), found_input=False)
         if obs['fixflags']:
             terms.append(fix_term(p, obs))
             meta.append(('fix', p, obs))
@@ -1002,6 +1066,7 @@ def run(ctx):
         ctx.support('recovery_well_sampled', n)
         ctx.stat('real', 'well-sampled-isophotes', n)
         radii = worst.pop('radii')
+        ctx.stat('real', 'well-sampled-non-iterative-isophotes-checked', worst.pop('noniter', 0))
         if not obs['isos'] and fixed_at_truth(p):
             # "No meaningful fit was possible" although the initial geometry is inside the basin of
             # convergence: counted as 8 well-sampled radii that did not converge
@@ -1071,9 +1136,12 @@ def run(ctx):
     # galaxies centred beyond the shorter frame dimension first (image axes must not be interchangeable)
     def seam(p):
         return p['pa'] in (0.0, math.pi)
+    def noniter(e):
+        return any(c == 4 for _, c, _ in e[1]['isos'])
     elig = ([e for e in elig if beyond(e[0])][:(3 if quick else 10)]
             + [e for e in elig if seam(e[0]) and not beyond(e[0])][:(3 if quick else 10)]
-            + [e for e in elig if not beyond(e[0]) and not seam(e[0])][:(2 if quick else 10)])
+            + [e for e in elig if noniter(e) and not beyond(e[0]) and not seam(e[0])][:(3 if quick else 10)]
+            + [e for e in elig if not beyond(e[0]) and not seam(e[0]) and not noniter(e)][:(2 if quick else 10)])
     for p, obs in elig:
         try:
             res = model_residual(p, obs)
@@ -1090,6 +1158,8 @@ def run(ctx):
         ctx.stat('model_image', 'centre-beyond-shorter-dimension' if beyond(p) else 'centre-within-shorter-dimension')
         if seam(p):
             ctx.stat('model_image', 'pa-on-the-0/pi-seam')
+        if noniter((p, obs)):
+            ctx.stat('model_image', 'list-with-non-iterative-isophotes')
         d = ctx.cov['correspondence'].setdefault('model_image', {})
         d['least_filled_fraction'] = min(d.get('least_filled_fraction', 1.0), round(coverage, 5))
         if coverage < MODEL_COVERAGE_TOL:
